@@ -146,6 +146,23 @@ class LitJudge(Judge):
         ctx = {'vector': obj, 'specs': specs}
         if self.judged % 1499 == 1:
             self.sample({'case': what, 'documented_verdict': obj['verdict']})
+        if self.prop == 'C11':
+            # the same files in the opposite order: same verdict, same description (incl. computed examples)
+            outs = []
+            for order in (list(specs), list(reversed(specs))):
+                try:
+                    api = specs_to_ir([tuple(s) for s in order])
+                    from semcheck import project_api, canon
+                    ex = {(n.name, d.name): sorted((k, repr(v.value)) for k, v in d.get_examples().items())
+                          for n in api.namespaces.values() for d in n.data_types}
+                    outs.append(('api', canon(sorted(project_api(api), key=lambda x: x['ns'])), repr(sorted(ex.items()))))
+                except InvalidSpec:
+                    outs.append(('invalid',))
+                except Exception as e:
+                    outs.append(('exc', type(e).__name__))
+            if outs[0] != outs[1]:
+                self.violation('file_order_' + mode, 'file order changes the result (%s vs %s): %s' % (outs[0][0], outs[1][0], what), ctx)
+            return
         try:
             specs_to_ir([tuple(s) for s in specs])
             out = 'acc'
